@@ -1,6 +1,7 @@
 (** C11 (router part) — no sequence of frames of any kind, from requestors or repliers, in any
-    schedule, makes a topic router panic. *)
-Require Import Selium.Base Selium.PubSub Selium.PubSubSpec Selium.P_PubSub Selium.ReqRep Selium.ReqRepSpec Selium.P_ReqRep.
+    schedule, makes a topic router panic; and no socket the request/reply router took from its
+    registration channel is dropped on the floor: it waits in the queue or was given a role. *)
+Require Import Selium.Base Selium.PubSub Selium.PubSubSpec Selium.P_PubSub Selium.ReqRep Selium.ReqRepSpec Selium.P_ReqRep Selium.P_ReqRepOrder Selium.P_ReqRepReg.
 Open Scope N_scope.
 
 Theorem c11_reqrep_router_total : forall tr s, rrun rinit tr = Some s -> rpanicked s = false.
@@ -10,3 +11,14 @@ Print Assumptions c11_reqrep_router_total.
 Theorem c11_pubsub_router_total : forall tr s, run init tr = Some s -> panicked s = false.
 Proof. intros tr s H. apply (run_c01 tr s H). Qed.
 Print Assumptions c11_pubsub_router_total.
+
+(** "never accepted and then silently abandoned", inside the request/reply router: every socket it
+    took from the registration channel is still waiting in its queue, or is a replier that was
+    bound, or a replier that was refused (theorem c10_refused_replier_told_then_closed continues
+    from there: error frame, then close, or its sink failed), or a requestor that was given a key *)
+Theorem c11_reqrep_registration_never_dropped : forall tr s, rrun rinit tr = Some s ->
+  forall l, In l (h_used (rgh s)) ->
+    In l (map rlabel_of (rqueue s)) \/ In l (h_bound (rgh s)) \/ In l (h_rejected (rgh s))
+    \/ In l (map snd (h_keys (rgh s))).
+Proof. exact rr_no_registration_lost. Qed.
+Print Assumptions c11_reqrep_registration_never_dropped.
